@@ -1,11 +1,13 @@
 import Exetera.Model.Basic
+import Exetera.Spec.CsvRender
 /-!
   Executable model of `DataFrame.to_csv` and `DataFrame.to_pandas` (exetera/core/dataframe.py), C18.  Core Lean only.
 
   A frame is the ordered list of its columns; every cell is the *text* the export hands to `csv.writer`
   (the string of an indexed-string field, `str()` of the `.tolist()` element of a numeric field — Python's `str` of a
-  number is an external the model does not look into). `csv.writer.writerow` is the parameter `writerow`
-  (instantiated by the driver with `Spec.Csv.renderRow`, which the harness validates against Python's csv module).
+  number is an external the model does not look into). The function that turns a row into a line of the file is the
+  parameter `writerow`: as found it is `csv.writer.writerow` (`Spec.Csv.renderRow`, which the harness validates against
+  Python's csv module); with fixes/D30_NC18a applied it is ExeTera's own `_csv_record`, modelled below as `csvRecord`.
 
   The model mirrors the code *with the fixes NC18d/NC18e applied* (the caller's `column_filter` list is copied; the filter
   column is dropped from the output only when the filter is this frame's own field); `to_pandas` is modelled with and
@@ -87,6 +89,26 @@ def validateRowFilter : RowFilter → Except Err (Option (List Bool))
 def filterColumnName : RowFilter → Option Cell
   | .field (some n) true _ _ => some n
   | _ => Option.none
+
+/-! ### `_csv_record` (fixes/D30_NC18a): the line of the file for one row -/
+
+/-- `text[:1] == ' ' or ',' in text or '"' in text or '\n' in text or '\r' in text` -/
+def needsQuotes (s : Cell) : Bool :=
+  s.head? == some ' ' || s.contains ',' || s.contains '"' || s.contains '\n' || s.contains '\r'
+
+/-- `'"' + text.replace('"', '""') + '"'` when the cell needs quotes -/
+def quoteCell (s : Cell) : List Char :=
+  if needsQuotes s then '"' :: (Spec.Csv.escape s ++ ['"']) else s
+
+/-- `','.join(texts)` -/
+def joinRecord : List Cell → List Char
+  | [] => []
+  | [c] => quoteCell c
+  | c :: cs => quoteCell c ++ ',' :: joinRecord cs
+
+/-- `_csv_record(cells)`; a record that is one empty cell is written as `""` -/
+def csvRecord (cells : List Cell) : List Char :=
+  (if cells = [[]] then ['"', '"'] else joinRecord cells) ++ ['\n']
 
 /-! ### Python builtins used by the loop -/
 
